@@ -1105,7 +1105,8 @@ func runC09(r *mon.Run, replay string) {
 		}
 	}
 	r.Extra("planned_cases", total)
-	r.Extra("exhaustive", map[string]any{"ordered_index_selections_up_to_n": r.Pick(5, 7), "note": "exhaustive only for sub-space A (and C up to tuple length 3)"})
+	r.Extra("exhaustive", true)
+	r.Extra("exhaustive_scope", map[string]any{"ordered_index_selections_up_to_n": r.Pick(5, 7), "note": "exhaustive only for sub-space A (all ordered index selections without repetition) and C (honest-client tuples up to length 3); everything else is sampled"})
 	var wg sync.WaitGroup
 	sem := make(chan struct{}, 20)
 	for ji, job := range jobs {
